@@ -321,13 +321,13 @@ def gen_table(rnd, long_rows=False):
     if rnd.random() < 0.6:
         cells = [(c, 1, [rnd.choice(('Name', 'Meaning', 'Notes', 'Reg'))], '=h ') for c in range(ncols)]
         rows.append(cells)
-    for r in range(rnd.randrange(1, 5)):
+    for r in range(rnd.randrange(2, 5)):
         cells = []
         c = 0
         while c < ncols:
             span = 1
-            if c == wcol and ncols == 3 and rnd.random() < 0.5:
-                span = 2
+            if c == wcol and ncols == 3 and (rnd.random() < 0.5 or (wrap and r == 1)):
+                span = 2          # (a wrappable table of three columns always has a row whose wrappable cell spans two)
             if c == wcol:
                 vocab = C03pipe.PLAIN[:14] if longw else C03pipe.PLAIN[:12]
                 ws = C03pipe.text(rnd, 8 if span > 1 and wrap else 1, 18 if wrap else 4, vocab).split()
